@@ -20,6 +20,8 @@ class Ghost:
         self.last_exit = {}      # compound state -> (children snapshot, descendants snapshot)
         self.initialized = False
         self.clean = True        # no exception (other than nondeterminism/conflict) so far
+        self.qclean = True       # the event queues are still predictable (they are across exceptions: what was
+                                 # consumed and what was sent before the exception was announced)
         self.final = False
 
     def add(self, internal, due, ev):
@@ -75,6 +77,8 @@ class InterpProp(Prop):
         enc = ChartEnc(sc)
         ops = [['create', 0, self.ignore_contract, [], 0]] + self.make_ops(rnd, kn, sc)
         payload = {'kind': 'interp', 'charts': [enc.json], 'ops': ops}
+        if g.bad_construction:
+            payload['construction_spec'] = g.bad_construction[:3]
         if history:
             payload['history'] = history
         return Case(payload, {'charts': [sc]}, model_ok=enc.supported)
@@ -180,7 +184,14 @@ class InterpProp(Prop):
                     return
 
     # ---- oracle skeleton: walk the ops of slot 0 ----------------------------------------------
+    owns_construction = False   # the property speaks about the transitions as the client declared them
+
     def oracle(self, case, obs, res):
+        if self.owns_construction and case.payload.get('construction_spec'):
+            bad = gen.construction_faults(case.payload['construction_spec'])
+            if bad:
+                res.violations.append('the statechart executed is not the one declared: %s' % bad[0])
+                return
         sc = case.aux['run_charts'][0]
         trans = list(sc.transitions)
         gh = Ghost()
@@ -218,6 +229,23 @@ class InterpProp(Prop):
             if r['err']['class'] not in ('NonDeterminismError', 'ConflictingTransitionsError'):
                 gh.clean = False
             gh.initialized = True
+            # the step was interrupted: what it announced before that has happened — the event it said it
+            # consumed is consumed, the events it said were sent are queued
+            t = info['clock']
+            for m in oracles.meta_effects(r.get('eff', [])):
+                if m['ev'] == 'event consumed':
+                    k = gh.next(t)
+                    ev = dict(map(tuple, m['data'])).get('event')
+                    if k is not None and k['ev'] == ev:
+                        gh.tickets.remove(k)
+                    else:
+                        gh.qclean = False
+                elif m['ev'] == 'event sent':
+                    ev = dict(map(tuple, m['data'])).get('event')
+                    if isinstance(ev, dict):
+                        gh.add(True, t + ev_delay(ev), ev)
+                    else:
+                        gh.qclean = False
             return
         t = info['clock']
         if out == 'step':
